@@ -223,8 +223,40 @@ func Select(site uint32, hasDefault bool, cases ...Case) (int, reflect.Value, bo
 	// at the same instant (see the stash comment above). Only a wake-up by the
 	// fake clock can tie; a wake-up caused by another task's operation is
 	// ordered by that task's execution and is final.
-	if !timerWoken || cs[idx].Dir != reflect.SelectRecv || n == 1 {
+	if cs[idx].Dir != reflect.SelectRecv || n == 1 {
 		return idx, rv, ok
+	}
+	if !timerWoken {
+		// Woken by another task's operation: final, except when the case is a
+		// receive on a closed channel. One cancel() closes the Done channels of
+		// a whole context tree in the runtime's map order, so which of two
+		// closed cases woke the task is not a function of the tape. Nothing was
+		// consumed by such a wake-up, so evaluating the select afresh is the
+		// behaviour of the same task arriving a little later: a value that is
+		// ready now is taken (first in case order), otherwise the tape picks
+		// among the closed cases.
+		if ok {
+			return idx, rv, ok
+		}
+		closed := []int{idx}
+		for i := range cs {
+			if i == idx || cs[i].Dir != reflect.SelectRecv {
+				continue
+			}
+			if v, vok, ready := s.poll(cs[i]); ready {
+				if vok {
+					return i, v, vok
+				}
+				closed = append(closed, i)
+			}
+		}
+		if len(closed) == 1 {
+			return idx, rv, ok
+		}
+		sort.Ints(closed)
+		s.out.Probes["simrt:select-closed-tie"]++
+		i := closed[s.Tape.Choose(Sched, len(closed))]
+		return i, reflect.Zero(cs[i].Chan.Type().Elem()), false
 	}
 	type got struct {
 		i  int
